@@ -150,6 +150,14 @@ func (d *c02DFS) explore(s *c02State, depth int) {
 				}
 				n.paid[li]++
 				d.run.Hit("C02.first_payment_accepted")
+				// the same withdrawal re-submitted under another spelling of the same recipient account
+				alt := o.Claim(pos, submitter.String())
+				alt.To = strings.ToUpper(alt.To)
+				n2 := n.fork()
+				r2 := n2.env.L1.Deliver(alt)
+				d.run.Evaluations++
+				n2.path = append(n2.path, fmt.Sprintf("finalize(leaf=%d out=%d, recipient re-spelled in upper case) -> %s", li, o.Index, r2.Class))
+				d.run.Check("C02.respelled_recipient_not_paid_again", r2.Class != sim.OK, "c02.double_payment_respelled", n2.path, "leaf %d paid a second time after re-spelling the recipient address", li)
 				d.explore(n, depth-1)
 			} else {
 				if s.paid[li] > 0 {
